@@ -17,6 +17,7 @@
 #include <ascon/random.h>
 #include "random/ascon-trng.h"
 #include <errno.h>
+#include <stddef.h>
 #include <sys/types.h>
 #include <sys/wait.h>
 #include <unistd.h>
@@ -360,7 +361,7 @@ static int random_in_child(size_t n, uint64_t tape, unsigned fail_mask, unsigned
 {
     int fd[2];
     pid_t pid;
-    size_t got = 0, want = sizeof(int) + sizeof(long) + n + 8;
+    size_t got = 0, want = offsetof(rnd_res_t, out) + n + 8;
     uint8_t *raw = (uint8_t *)res;
     if (pipe(fd)) return -1;
     fflush(stdout);
